@@ -16,7 +16,7 @@ def keyfn(case, res, m):
 def build_cases(chk):
     rng = chk.rng
     cases = scen_log.boundary_cases(rng, chk.tier)
-    n = 70 if chk.tier == 'quick' else 3000
+    n = 70 if chk.tier == 'quick' else 2500
     cases += [scen_log.gen_case(rng, chk.tier) for _ in range(n)]
     sv = [(0, 10), (5, 100), (400, 1000)] if chk.tier == 'quick' else [(0, 10), (1, 10), (5, 100), (400, 1000), (2000, 100), (10, 70000)] * 4
     cases += [scen_log.servlet_case(rng, a, b) for a, b in sv]
@@ -32,7 +32,7 @@ def run(chk):
     results = scen_proc.recheck_hangs(chk, 'scen_log', results, scen_log.vol_class)
     chk.account(scen_log, results, 'E4-processes')
     chk.collect_monitors(results, {'C20'}, keyfn)
-    chk.validate('logpipe', scen_log, results)
+    scen_proc.validate_parallel(chk, 'logpipe', scen_log, results, nproc=chk.workers, cost=lambda c: scen_log.n_total(c) ** 2)
     if chk.corr_breaks and not chk.violations:
         more = []
         for b in chk.corr_breaks[:8]:
